@@ -79,7 +79,7 @@ func (F *Facts) effectsInfo() *effectInfo {
 		}
 	}
 	for fn := range E.direct {
-		sort.Slice(E.direct[fn], func(i, j int) bool { return E.direct[fn][i].Instr.Pos() < E.direct[fn][j].Instr.Pos() })
+		sort.Slice(E.direct[fn], func(i, j int) bool { return ir.PosLess(E.direct[fn][i].Instr.Pos(), E.direct[fn][j].Instr.Pos()) })
 		E.trans[fn] = E.direct[fn][0].Desc
 		E.kinds[fn] = map[string]bool{}
 		for _, e := range E.direct[fn] {
@@ -143,7 +143,7 @@ func (F *Facts) EffectsIn(fn *ssa.Function) []Effect {
 			}
 		}
 	}
-	sort.SliceStable(out, func(i, j int) bool { return out[i].Instr.Pos() < out[j].Instr.Pos() })
+	sort.SliceStable(out, func(i, j int) bool { return ir.PosLess(out[i].Instr.Pos(), out[j].Instr.Pos()) })
 	return out
 }
 
